@@ -341,39 +341,20 @@ func getterSameField(c *Ctx, r *Report, rule string, names []string, consequence
 			continue
 		}
 		r.fn(name)
+		// the getter of timeout X looks at field X only, however it is written (if / return, cmp.Or, ...)
+		want := strings.TrimPrefix(name[strings.Index(name, ".")+1:], "get")
 		var bad []string
 		n := 0
-		for _, b := range fn.Blocks {
-			ret, ok := b.Instrs[len(b.Instrs)-1].(*ssa.Return)
-			if !ok || len(ret.Results) != 1 {
-				continue
-			}
-			ld, ok := ret.Results[0].(*ssa.UnOp)
-			if !ok {
-				continue
-			}
-			fa, ok := ld.X.(*ssa.FieldAddr)
-			if !ok {
-				continue
+		allInstrs(fn, func(in ssa.Instruction) {
+			fa, ok := in.(*ssa.FieldAddr)
+			if !ok || fa.X != ssa.Value(fn.Params[0]) {
+				return
 			}
 			n++
-			tested := false
-			var others []string
-			for _, f := range factsAt(fn, b) {
-				for v := range sliceOf(f.Atom) {
-					if fa2, ok := v.(*ssa.FieldAddr); ok {
-						if fieldNameOf(fa2) == fieldNameOf(fa) {
-							tested = true
-						} else {
-							others = append(others, fieldNameOf(fa2))
-						}
-					}
-				}
+			if got := fieldNameOf(fa); got != want {
+				bad = append(bad, fmt.Sprintf("%s reads %s", c.pos(fa.Pos()), got))
 			}
-			if !tested {
-				bad = append(bad, fmt.Sprintf("%s returns %s after a test of %s", c.pos(ret.Pos()), fieldNameOf(fa), strings.Join(uniqStrings(others), ", ")))
-			}
-		}
+		})
 		r.check(n > 0 && len(bad) == 0, rule, name, c.pos(fn.Pos()), "tested field returned", "%s: %s", strings.Join(bad, "; "), consequence)
 	}
 }
